@@ -20,10 +20,26 @@ RawLineSpan(src, ln) ==
   [s |-> IF ln = 0 THEN 0 ELSE nl[ln] + 1,
    e |-> IF ln < Len(nl) THEN nl[ln + 1] + 1 ELSE Len(src)]
 
+\* Whitespace is Unicode White_Space, as `str::trim` uses it; the source is UTF-8, so a whitespace
+\* character is one of the following byte sequences:  09-0D 20 | C2 85 | C2 A0 | E1 9A 80 |
+\* E2 80 80-8A | E2 80 A8 | E2 80 A9 | E2 80 AF | E2 81 9F | E3 80 80
+Ws1(b1) == b1 \in {9, 10, 11, 12, 13, 32}
+Ws2(b1, b2) == b1 = 194 /\ b2 \in {133, 160}
+Ws3(b1, b2, b3) == \/ b1 = 225 /\ b2 = 154 /\ b3 = 128
+                   \/ b1 = 226 /\ b2 = 128 /\ (b3 \in 128..138 \/ b3 \in {168, 169, 175})
+                   \/ b1 = 226 /\ b2 = 129 /\ b3 = 159
+                   \/ b1 = 227 /\ b2 = 128 /\ b3 = 128
+\* number of bytes of a whitespace character ending at offset e / starting at offset s, inside [s, e)
+WsEnd(src, s, e) == IF e - s >= 1 /\ Ws1(src[e]) THEN 1
+                    ELSE IF e - s >= 2 /\ Ws2(src[e - 1], src[e]) THEN 2
+                    ELSE IF e - s >= 3 /\ Ws3(src[e - 2], src[e - 1], src[e]) THEN 3 ELSE 0
+WsStart(src, s, e) == IF e - s >= 1 /\ Ws1(src[s + 1]) THEN 1
+                      ELSE IF e - s >= 2 /\ Ws2(src[s + 1], src[s + 2]) THEN 2
+                      ELSE IF e - s >= 3 /\ Ws3(src[s + 1], src[s + 2], src[s + 3]) THEN 3 ELSE 0
 RECURSIVE TrimEnd(_, _, _)
-TrimEnd(src, s, e) == IF e > s /\ IsWs(src[e]) THEN TrimEnd(src, s, e - 1) ELSE e
+TrimEnd(src, s, e) == LET n == WsEnd(src, s, e) IN IF n > 0 THEN TrimEnd(src, s, e - n) ELSE e
 RECURSIVE TrimStart(_, _, _)
-TrimStart(src, s, e) == IF s < e /\ IsWs(src[s + 1]) THEN TrimStart(src, s + 1, e) ELSE s
+TrimStart(src, s, e) == LET n == WsStart(src, s, e) IN IF n > 0 THEN TrimStart(src, s + n, e) ELSE s
 
 \* line without surrounding whitespace
 LineSpan(src, ln) ==
